@@ -15,7 +15,7 @@ TARGET = dict(
     execs=[dict(name="cow_block", harness="harness/C02_cow_block.c", repo=LIBUPIPE, engine=MEMFIX, share=1.0),
            dict(name="cow_pic", harness="harness/C02_cow_pic.c", repo=LIBUPIPE, engine=MEMFIX, share=1.0, case_scale=0.4),
            dict(name="cow_sound", harness="harness/C02_cow_sound.c", repo=LIBUPIPE, engine=MEMFIX, share=1.0, case_scale=0.4)],
-    quick=dict(cases=60000, budget=18), thorough=dict(cases=1000000, budget=160),
+    quick=dict(cases=60000, budget=18), thorough=dict(cases=800000, budget=150),
 )
 META = dict(
     technique="model-based property testing (rapidcheck tapes -> stateful C executors) with per-handle content copies and per-area owner sets, under ASan",
